@@ -764,6 +764,9 @@ class Parser:
                 t.arg = arg_pos_map[t.arg - 1]
             repl_mapped.append(t)
         
+        if name in self.parms.newcommand_ignore:
+            # as for \newcommand
+            return [defs.ActionToken(start)]
         self.the_macros[name] = defs.Macro(self.parms, name,
                                         args='A'*len(args), repl=repl_mapped,
                                         scanned=True)
